@@ -4,6 +4,7 @@ package gortsplib
 
 import (
 	"io"
+	"time"
 
 	"github.com/bluenviron/gortsplib/v5/internal/asyncprocessor"
 	"github.com/bluenviron/gortsplib/v5/internal/base64streamreader"
@@ -18,4 +19,34 @@ type VerifAsyncProcessor = asyncprocessor.Processor
 // VerifNewBase64StreamReader is base64streamreader.New.
 func VerifNewBase64StreamReader(r io.Reader) io.Reader {
 	return base64streamreader.New(r)
+}
+
+// VerifSetServerKnobs sets the server's private clock and periods before Start
+// (zero values keep the defaults).
+func VerifSetServerKnobs(
+	s *Server,
+	timeNow func() time.Time,
+	senderReportPeriod time.Duration,
+	receiverReportPeriod time.Duration,
+	checkStreamPeriod time.Duration,
+) {
+	s.timeNow = timeNow
+	s.senderReportPeriod = senderReportPeriod
+	s.receiverReportPeriod = receiverReportPeriod
+	s.checkStreamPeriod = checkStreamPeriod
+}
+
+// VerifSetClientKnobs sets the client's private clock and periods before Start
+// (zero values keep the defaults).
+func VerifSetClientKnobs(
+	c *Client,
+	timeNow func() time.Time,
+	senderReportPeriod time.Duration,
+	receiverReportPeriod time.Duration,
+	checkTimeoutPeriod time.Duration,
+) {
+	c.timeNow = timeNow
+	c.senderReportPeriod = senderReportPeriod
+	c.receiverReportPeriod = receiverReportPeriod
+	c.checkTimeoutPeriod = checkTimeoutPeriod
 }
